@@ -35,10 +35,10 @@ Qed.
 (* ---- the heap morphism --------------------------------------------------------------------- *)
 
 Inductive mcell := MA (a : nat) | MF (fd : fdef).
-Record morph := { mm : list mcell; mv : list (nat * list nat) }.
+Record morph := { mm : list mcell; mv : list (nat * list nat); mf : list (nat * (fdef * env)) }.
 
 Definition mget (m : morph) (c : nat) : option mcell := nth_error (mm m) c.
-Definition msnoc (m : morph) (x : mcell) : morph := {| mm := mm m ++ [x]; mv := mv m |}.
+Definition msnoc (m : morph) (x : mcell) : morph := {| mm := mm m ++ [x]; mv := mv m; mf := mf m |}.
 
 Definition val_rel (v : cellval) (z : Z) : Prop :=
   match v with
@@ -50,6 +50,15 @@ Definition val_rel (v : cellval) (z : Z) : Prop :=
 Lemma Forall2_imp : forall {A B} (P Q : A -> B -> Prop) l l',
   (forall x y, P x y -> Q x y) -> Forall2 P l l' -> Forall2 Q l l'.
 Proof. intros A B P Q l l' H HF. induction HF; constructor; auto. Qed.
+
+Lemma nth_error_combine_seq : forall {A B} (g : A -> B) (l : list A) c0 j x, nth_error l j = Some x ->
+  nth_error (combine (seq c0 (length l)) (map g l)) j = Some ((c0 + j)%nat, g x).
+Proof.
+  intros A B g l. induction l as [|y t IH]; intros c0 j x H; [destruct j; discriminate|].
+  destruct j; simpl in *.
+  - inversion H. rewrite Nat.add_0_r. reflexivity.
+  - rewrite (IH (S c0) j x H). f_equal. f_equal. lia.
+Qed.
 
 Section Rel.
 (* code address of a function: the program's functions (all of them, Compile4.all_funcs) and the table *)
@@ -77,36 +86,48 @@ Definition cell_rel (m : morph) (v : cellval) (hc : hcell) : Prop :=
 Record MS (m : morph) (st : state) (h : list hcell) : Prop := {
   ms_len : length (mm m) = length (cells st);
   ms_rel : forall c a, mget m c = Some (MA a) ->
-           exists v hc, nth_error (cells st) c = Some v /\ nth_error h a = Some hc /\ cell_rel m v hc;
+           exists v hc, nth_error (cells st) c = Some v /\ nth_error h a = Some hc /\ cell_rel m v hc /\
+                        (forall fd cenv, v = CFun fd cenv -> In (c, (fd, cenv)) (mf m));
   ms_inj : forall c1 c2 a, mget m c1 = Some (MA a) -> mget m c2 = Some (MA a) -> c1 = c2;
   ms_fun : forall c fd, mget m c = Some (MF fd) -> nth_error (cells st) c = Some (CFun fd []);
-  ms_vec : forall v l, In (v, l) (mv m) -> nth_error h v = Some (HVec l)
+  ms_vec : forall v l, In (v, l) (mv m) -> nth_error h v = Some (HVec l);
+  (* the closures made so far: a recorded cell still holds its closure, or an int (after an assignment); the
+     environment of a NAMED nested function binds the function's name to the cell itself *)
+  ms_fcl : forall c fd cenv, In (c, (fd, cenv)) (mf m) ->
+           nth_error (cells st) c = Some (CFun fd cenv) \/
+           exists v, nth_error (cells st) c = Some v /\ match v with CInt _ | CBool _ => True | _ => False end;
+  ms_fself : forall c fd cenv k, In (c, (fd, cenv)) (mf m) -> nth_error AF k = Some (KNamed, fd) ->
+             lookup (fd_name fd) cenv = Some c
 }.
 
 Definition ext (m m' : morph) : Prop :=
-  (exists l, mm m' = mm m ++ l) /\ (exists l, mv m' = mv m ++ l).
+  (exists l, mm m' = mm m ++ l) /\ (exists l, mv m' = mv m ++ l) /\ (exists l, mf m' = mf m ++ l).
 
 Lemma ext_refl : forall m, ext m m.
-Proof. intros m. split; exists []; now rewrite app_nil_r. Qed.
+Proof. intros m. split; [|split]; exists []; now rewrite app_nil_r. Qed.
 
 Lemma ext_trans : forall a b c, ext a b -> ext b c -> ext a c.
 Proof.
-  intros a b c [(l1 & E1) (v1 & F1)] [(l2 & E2) (v2 & F2)]. split.
+  intros a b c ((l1 & E1) & (v1 & F1) & (w1 & G1)) ((l2 & E2) & (v2 & F2) & (w2 & G2)). split; [|split].
   - exists (l1 ++ l2). rewrite E2, E1. now rewrite app_assoc.
   - exists (v1 ++ v2). rewrite F2, F1. now rewrite app_assoc.
+  - exists (w1 ++ w2). rewrite G2, G1. now rewrite app_assoc.
 Qed.
+
+Lemma ext_fcl : forall m m' x, ext m m' -> In x (mf m) -> In x (mf m').
+Proof. intros m m' x (_ & _ & (l & E)) H. rewrite E. apply in_or_app. auto. Qed.
 
 Lemma ext_nth : forall m m' c x, ext m m' -> mget m c = Some x -> mget m' c = Some x.
 Proof.
-  intros m m' c x [(l & E) _] H. unfold mget in *. rewrite E. rewrite nth_error_app1; auto.
+  intros m m' c x ((l & E) & _) H. unfold mget in *. rewrite E. rewrite nth_error_app1; auto.
   apply nth_error_Some. congruence.
 Qed.
 
 Lemma ext_vec : forall m m' v l, ext m m' -> In (v, l) (mv m) -> In (v, l) (mv m').
-Proof. intros m m' v l [_ (l' & E)] H. rewrite E. apply in_or_app. auto. Qed.
+Proof. intros m m' v l (_ & (l' & E) & _) H. rewrite E. apply in_or_app. auto. Qed.
 
 Lemma ext_snoc : forall m x, ext m (msnoc m x).
-Proof. intros. split; simpl; [eexists; eauto | exists []; now rewrite app_nil_r]. Qed.
+Proof. intros. split; [|split]; simpl; [eexists; eauto | exists []; now rewrite app_nil_r | exists []; now rewrite app_nil_r]. Qed.
 
 Lemma fun_rel_ext : forall m m' fd cenv vec addr, ext m m' -> fun_rel m fd cenv vec addr ->
   fun_rel m' fd cenv vec addr.
@@ -128,7 +149,7 @@ Proof. intros m v hc H Hv. destruct v; try contradiction; destruct hc; simpl in 
 Lemma MS_payload_int : forall m st h c a z, MS m st h -> mget m c = Some (MA a) ->
   get_int st c = Some z -> hint h a = Some z.
 Proof.
-  intros m st h c a z HMS Hm Hg. destruct (ms_rel _ _ _ HMS c a Hm) as (v & hc & Hc & Hh & Hv).
+  intros m st h c a z HMS Hm Hg. destruct (ms_rel _ _ _ HMS c a Hm) as (v & hc & Hc & Hh & Hv & _).
   unfold get_int, get_cell in Hg. rewrite Hc in Hg. destruct v; try discriminate.
   inversion Hg; subst. unfold hint. rewrite Hh. destruct hc; simpl in Hv; try contradiction. subst. reflexivity.
 Qed.
@@ -136,7 +157,7 @@ Qed.
 Lemma MS_payload_bool : forall m st h c a b, MS m st h -> mget m c = Some (MA a) ->
   get_bool st c = Some b -> hint h a = Some (b2z b).
 Proof.
-  intros m st h c a b HMS Hm Hg. destruct (ms_rel _ _ _ HMS c a Hm) as (v & hc & Hc & Hh & Hv).
+  intros m st h c a b HMS Hm Hg. destruct (ms_rel _ _ _ HMS c a Hm) as (v & hc & Hc & Hh & Hv & _).
   unfold get_bool, get_cell in Hg. rewrite Hc in Hg. destruct v; try discriminate.
   inversion Hg; subst. unfold hint. rewrite Hh. destruct hc; simpl in Hv; try contradiction. subst. reflexivity.
 Qed.
@@ -144,7 +165,7 @@ Qed.
 Lemma MS_payload_cell : forall m st h c a v, MS m st h -> mget m c = Some (MA a) ->
   get_cell st c = Some v -> exists hc, nth_error h a = Some hc /\ cell_rel m v hc.
 Proof.
-  intros m st h c a v HMS Hm Hg. destruct (ms_rel _ _ _ HMS c a Hm) as (v' & z' & Hc & Hh & Hv).
+  intros m st h c a v HMS Hm Hg. destruct (ms_rel _ _ _ HMS c a Hm) as (v' & z' & Hc & Hh & Hv & _).
   unfold get_cell in Hg. rewrite Hc in Hg. inversion Hg; subst. eauto.
 Qed.
 
@@ -155,8 +176,8 @@ Lemma nil_cmp_mapped : forall op m st h c1 a1 c2 a2, MS m st h ->
   nil_cmp op (get_cell st c1) (get_cell st c2) = None.
 Proof.
   intros op m st h c1 a1 c2 a2 HMS H1 H2.
-  destruct (ms_rel _ _ _ HMS c1 a1 H1) as (v1 & hc1 & Hc1 & _ & Hv1).
-  destruct (ms_rel _ _ _ HMS c2 a2 H2) as (v2 & hc2 & Hc2 & _ & Hv2).
+  destruct (ms_rel _ _ _ HMS c1 a1 H1) as (v1 & hc1 & Hc1 & _ & Hv1 & _).
+  destruct (ms_rel _ _ _ HMS c2 a2 H2) as (v2 & hc2 & Hc2 & _ & Hv2 & _).
   unfold get_cell. rewrite Hc1, Hc2.
   destruct v1, hc1; simpl in Hv1; try contradiction; destruct v2, hc2; simpl in Hv2; try contradiction;
     reflexivity.
@@ -164,45 +185,58 @@ Qed.
 
 Lemma MS_addr_lt : forall m st h c a, MS m st h -> mget m c = Some (MA a) -> (a < length h)%nat.
 Proof.
-  intros m st h c a HMS Hm. destruct (ms_rel _ _ _ HMS c a Hm) as (? & ? & _ & Hh & _).
+  intros m st h c a HMS Hm. destruct (ms_rel _ _ _ HMS c a Hm) as (? & ? & _ & Hh & _ & _).
   apply nth_error_Some. congruence.
 Qed.
 
 Lemma MS_vec_lt : forall m st h v l, MS m st h -> In (v, l) (mv m) -> (v < length h)%nat.
 Proof. intros m st h v l HMS Hin. apply nth_error_Some. rewrite (ms_vec _ _ _ HMS v l Hin). discriminate. Qed.
 
-(* a fresh cell on both sides, after `pad` machine-only cells (vectors, temporaries) *)
+Lemma MS_fcl_lt : forall m st h c x, MS m st h -> In (c, x) (mf m) -> (c < length (cells st))%nat.
+Proof.
+  intros m st h c [fd cenv] HMS Hin. apply nth_error_Some.
+  destruct (ms_fcl _ _ _ HMS _ _ _ Hin) as [E | (v & E & _)]; rewrite E; discriminate.
+Qed.
+
+Definition frec (c : nat) (v : cellval) : list (nat * (fdef * env)) :=
+  match v with CFun fd cenv => [(c, (fd, cenv))] | _ => [] end.
+
+(* a fresh cell on both sides, after `pad` machine-only cells (vectors, temporaries); a closure is recorded *)
 Lemma MS_alloc_gen : forall m st h v hc c st' pad,
   MS m st h -> cell_rel m v hc -> alloc st v = (c, st') ->
-  MS (msnoc m (MA (length h + length pad))) st' (h ++ pad ++ [hc]) /\
-  mget (msnoc m (MA (length h + length pad))) c = Some (MA (length h + length pad)) /\
+  (forall fd cenv k, v = CFun fd cenv -> nth_error AF k = Some (KNamed, fd) -> lookup (fd_name fd) cenv = Some c) ->
+  let m' := {| mm := mm m ++ [MA (length h + length pad)]; mv := mv m; mf := mf m ++ frec c v |} in
+  MS m' st' (h ++ pad ++ [hc]) /\ mget m' c = Some (MA (length h + length pad)) /\ ext m m' /\
   out st' = out st.
 Proof.
-  intros m st h v hc c st' pad HMS Hv Ha. unfold alloc in Ha. inversion Ha; subst c st'; clear Ha.
-  set (a0 := (length h + length pad)%nat). set (m' := msnoc m (MA a0)).
-  assert (He : ext m m') by apply ext_snoc.
+  intros m st h v hc c st' pad HMS Hv Ha Hself m'. unfold alloc in Ha. inversion Ha; subst c st'; clear Ha.
+  set (a0 := (length h + length pad)%nat) in *.
+  assert (He : ext m m') by (split; [|split]; simpl; [eexists; reflexivity | exists []; now rewrite app_nil_r | eexists; reflexivity]).
   assert (Hnew : forall c a, (length (mm m) <= c)%nat -> mget m' c = Some (MA a) -> c = length (mm m) /\ a = a0).
   { intros c a Hge Hc. unfold mget, m' in Hc. simpl in Hc. rewrite nth_error_app2 in Hc by assumption.
     destruct (c - length (mm m))%nat as [|d] eqn:Hd; simpl in Hc; [|destruct d; discriminate].
     inversion Hc. split; lia. }
   assert (Hold : forall c a, (c < length (mm m))%nat -> mget m' c = Some a -> mget m c = Some a).
   { intros c a Hlt Hc. unfold mget, m' in *. simpl in Hc. rewrite nth_error_app1 in Hc by assumption. exact Hc. }
-  split; [|split].
+  assert (Hlen := ms_len _ _ _ HMS).
+  split; [|split; [|split]].
   - constructor; simpl.
-    + rewrite !app_length, (ms_len _ _ _ HMS). reflexivity.
+    + rewrite !app_length, Hlen. reflexivity.
     + intros c a Hm. destruct (Nat.lt_ge_cases c (length (mm m))) as [Hlt | Hge].
       * apply Hold in Hm; [|exact Hlt].
-        destruct (ms_rel _ _ _ HMS c a Hm) as (v' & z' & Hc & Hh & Hr).
-        exists v', z'. split; [|split].
+        destruct (ms_rel _ _ _ HMS c a Hm) as (v' & z' & Hc & Hh & Hr & Hf).
+        exists v', z'. split; [|split; [|split]].
         -- rewrite nth_error_app1; auto. apply nth_error_Some. congruence.
         -- rewrite nth_error_app1; auto. apply nth_error_Some. congruence.
         -- eapply cell_rel_ext; eauto.
+        -- intros fd cenv E. apply in_or_app. left. apply Hf. exact E.
       * destruct (Hnew c a Hge Hm) as [-> ->].
-        exists v, hc. split; [|split].
-        -- rewrite (ms_len _ _ _ HMS), nth_error_app2, Nat.sub_diag by lia. reflexivity.
+        exists v, hc. split; [|split; [|split]].
+        -- rewrite Hlen, nth_error_app2, Nat.sub_diag by lia. reflexivity.
         -- unfold a0. rewrite app_assoc, nth_error_app2 by (rewrite app_length; lia).
            rewrite app_length, Nat.sub_diag. reflexivity.
         -- eapply cell_rel_ext; eauto.
+        -- intros fd cenv E. apply in_or_app. right. subst v. rewrite Hlen. left. reflexivity.
     + intros c1 c2 a H1 H2.
       destruct (Nat.lt_ge_cases c1 (length (mm m))) as [L1 | G1];
       destruct (Nat.lt_ge_cases c2 (length (mm m))) as [L2 | G2].
@@ -214,13 +248,22 @@ Proof.
       * destruct (Hnew _ _ G1 H1), (Hnew _ _ G2 H2). lia.
     + intros c fd Hm. destruct (Nat.lt_ge_cases c (length (mm m))) as [Hlt | Hge].
       * apply Hold in Hm; [|exact Hlt].
-        rewrite nth_error_app1 by (rewrite <- (ms_len _ _ _ HMS); assumption).
+        rewrite nth_error_app1 by (rewrite <- Hlen; assumption).
         apply (ms_fun _ _ _ HMS _ _ Hm).
       * unfold mget, m' in Hm. simpl in Hm. rewrite nth_error_app2 in Hm by assumption.
         destruct (c - length (mm m))%nat as [|d] eqn:Hd; simpl in Hm; [discriminate | destruct d; discriminate].
     + intros v0 l Hin. rewrite nth_error_app1; [apply (ms_vec _ _ _ HMS _ _ Hin)|].
       eapply MS_vec_lt; eauto.
-  - unfold mget, m'. simpl. rewrite <- (ms_len _ _ _ HMS), nth_error_app2, Nat.sub_diag by lia. reflexivity.
+    + intros c fd cenv Hin. apply in_app_or in Hin. destruct Hin as [Hin | Hin].
+      * rewrite nth_error_app1 by (eapply MS_fcl_lt; eauto). apply (ms_fcl _ _ _ HMS _ _ _ Hin).
+      * unfold frec in Hin. destruct v; try contradiction. destruct Hin as [Hin | []]. inversion Hin; subst.
+        left. rewrite nth_error_app2, Nat.sub_diag by lia. reflexivity.
+    + intros c fd cenv k Hin Hk. apply in_app_or in Hin. destruct Hin as [Hin | Hin].
+      * eapply (ms_fself _ _ _ HMS); eauto.
+      * unfold frec in Hin. destruct v; try contradiction. destruct Hin as [Hin | []]. inversion Hin; subst.
+        eapply Hself; eauto.
+  - unfold mget, m'. simpl. rewrite <- Hlen, nth_error_app2, Nat.sub_diag by lia. reflexivity.
+  - exact He.
   - reflexivity.
 Qed.
 
@@ -230,8 +273,15 @@ Lemma MS_alloc : forall m st h v z c st', MS m st h -> val_rel v z -> alloc st v
   out st' = out st.
 Proof.
   intros m st h v z c st' HMS Hv Ha.
-  pose proof (MS_alloc_gen m st h v (HInt z) c st' [] HMS (cell_rel_int m v z Hv) Ha) as H.
-  simpl in H. rewrite Nat.add_0_r in H. exact H.
+  assert (Hs : forall fd cenv k, v = CFun fd cenv -> nth_error AF k = Some (KNamed, fd) -> lookup (fd_name fd) cenv = Some c)
+    by (intros fd cenv k E; subst v; simpl in Hv; contradiction).
+  pose proof (MS_alloc_gen m st h v (HInt z) c st' [] HMS (cell_rel_int m v z Hv) Ha Hs) as H.
+  simpl in H. rewrite Nat.add_0_r in H.
+  assert (Ef : frec c v = []) by (destruct v; simpl in Hv; try contradiction; reflexivity).
+  rewrite Ef, app_nil_r in H. destruct H as (A & B & _ & C).
+  unfold msnoc. split; [|split]; [| | exact C].
+  - destruct m; exact A.
+  - destruct m; exact B.
 Qed.
 
 Lemma MS_fresh : forall m st h v z c st', MS m st h -> val_rel v z -> fresh st v = (ROk c, st') ->
@@ -244,45 +294,55 @@ Proof.
 Qed.
 
 (* assignment: the payload of the left cell is overwritten on both sides (whatever it held: a mapped cell's
-   image is never a vector) *)
+   image is never a vector; a recorded closure cell becomes an int cell) *)
 Lemma MS_assign : forall m st h cl al v z, MS m st h -> mget m cl = Some (MA al) ->
   val_rel v z -> MS m (set_cell st cl v) (list_upd h al (HInt z)).
 Proof.
-  intros m st h cl al v z HMS Hl Hv. constructor; simpl.
+  intros m st h cl al v z HMS Hl Hv.
+  assert (Hiv : match v with CInt _ | CBool _ => True | _ => False end) by (destruct v; simpl in Hv; auto).
+  constructor; simpl.
   - rewrite list_upd_length. apply (ms_len _ _ _ HMS).
-  - intros c a Hm. destruct (ms_rel _ _ _ HMS c a Hm) as (v' & z' & Hc & Hh & Hr).
+  - intros c a Hm. destruct (ms_rel _ _ _ HMS c a Hm) as (v' & z' & Hc & Hh & Hr & Hf).
     destruct (Nat.eq_dec c cl) as [-> | Hne].
-    + assert (a = al) by congruence. subst a. exists v, (HInt z). split; [|split].
+    + assert (a = al) by congruence. subst a. exists v, (HInt z). split; [|split; [|split]].
       * apply nth_error_list_upd_same. apply nth_error_Some. congruence.
       * apply nth_error_list_upd_same. apply nth_error_Some. congruence.
       * apply cell_rel_int. exact Hv.
-    + exists v', z'. split; [|split]; auto.
+      * intros fd cenv E. subst v. contradiction.
+    + exists v', z'. split; [|split; [|split]]; auto.
       * rewrite nth_error_list_upd_other; auto.
       * rewrite nth_error_list_upd_other; auto. intros ->. apply Hne.
         eapply (ms_inj _ _ _ HMS); eauto.
   - apply (ms_inj _ _ _ HMS).
   - intros c fd Hm. rewrite nth_error_list_upd_other; [apply (ms_fun _ _ _ HMS _ _ Hm) | congruence].
   - intros v0 l Hin. rewrite nth_error_list_upd_other; [apply (ms_vec _ _ _ HMS _ _ Hin)|].
-    intros ->. destruct (ms_rel _ _ _ HMS cl v0 Hl) as (v' & hc & _ & Hh & Hr).
+    intros ->. destruct (ms_rel _ _ _ HMS cl v0 Hl) as (v' & hc & _ & Hh & Hr & _).
     rewrite (ms_vec _ _ _ HMS _ _ Hin) in Hh. inversion Hh; subst hc. destruct v'; simpl in Hr; contradiction.
+  - intros c fd cenv Hin. destruct (Nat.eq_dec c cl) as [-> | Hne].
+    + right. exists v. split; [|exact Hiv]. apply nth_error_list_upd_same. eapply MS_fcl_lt; eauto.
+    + rewrite nth_error_list_upd_other by congruence. apply (ms_fcl _ _ _ HMS _ _ _ Hin).
+  - exact (ms_fself _ _ _ HMS).
 Qed.
 
 (* a run of sibling functions: k new cells (the evaluator's closures over the common environment e'), their
    images the k slot cells, k new vectors *)
-Lemma MS_run : forall m st h H' (fds : list fdef) (e' : env) newvecs,
-  MS m st h ->
+Lemma MS_run : forall m st h H' (fds : list fdef) (e : env) newvecs,
+  MS m st h -> NoDup (map fd_name fds) ->
   (forall a, (a < length h)%nat -> nth_error H' a = nth_error h a) ->
   (forall v l, In (v, l) newvecs -> nth_error H' v = Some (HVec l)) ->
+  let c0 := length (cells st) in
+  let e' := func_env fds c0 e in
   (forall x c, lookup x e' = Some c -> is_fname FS x = false) ->
-  let m' := {| mm := mm m ++ map MA (seq (length h) (length fds)); mv := mv m ++ newvecs |} in
+  let m' := {| mm := mm m ++ map MA (seq (length h) (length fds)); mv := mv m ++ newvecs;
+               mf := mf m ++ combine (seq c0 (length fds)) (map (fun f => (f, e')) fds) |} in
   (forall j fd, nth_error fds j = Some fd ->
      exists v ad addr, nth_error H' (length h + j) = Some (HFun v addr) /\ In (v, ad) newvecs /\
        fun_addr fd addr /\
        Forall2 (fun y a => exists c, lookup y e' = Some c /\ mget m' c = Some (MA a)) (fvs_fd TL fd) ad) ->
   MS m' (add_cells st (map (fun f => CFun f e') fds)) H'.
 Proof.
-  intros m st h H' fds e' newvecs HMS Hpre Hnv Hnf m' Hslots.
-  assert (He : ext m m') by (split; simpl; eexists; reflexivity).
+  intros m st h H' fds e newvecs HMS Hnd Hpre Hnv c0 e' Hnf m' Hslots.
+  assert (He : ext m m') by (split; [|split]; simpl; eexists; reflexivity).
   assert (Hlen := ms_len _ _ _ HMS).
   assert (Hnew : forall c a, (length (mm m) <= c)%nat -> mget m' c = Some (MA a) ->
             exists j, c = (length (mm m) + j)%nat /\ a = (length h + j)%nat /\ (j < length fds)%nat).
@@ -296,23 +356,37 @@ Proof.
     rewrite seq_nth in Es by exact Hj. inversion Es. exists (c - length (mm m))%nat. repeat split; lia. }
   assert (Hold : forall c x, (c < length (mm m))%nat -> mget m' c = Some x -> mget m c = Some x).
   { intros c x Hlt Hc. unfold mget, m' in *. simpl in Hc. rewrite nth_error_app1 in Hc by assumption. exact Hc. }
+  assert (Hrec : forall c fd cenv, In (c, (fd, cenv)) (combine (seq c0 (length fds)) (map (fun f => (f, e')) fds)) ->
+            exists j, c = (c0 + j)%nat /\ nth_error fds j = Some fd /\ cenv = e').
+  { intros c fd cenv Hin. apply In_nth_error in Hin. destruct Hin as (j & Hj).
+    assert (Hjl : (j < length fds)%nat).
+    { assert (Hx : (j < length (combine (seq c0 (length fds)) (map (fun f => (f, e')) fds)))%nat) by (apply nth_error_Some; congruence).
+      rewrite combine_length, seq_length, map_length in Hx. lia. }
+    destruct (nth_error fds j) as [f|] eqn:Ef; [|apply nth_error_None in Ef; lia].
+    pose proof (nth_error_combine_seq (fun f => (f, e')) fds c0 j f Ef) as Hc.
+    rewrite Hc in Hj. inversion Hj; subst. exists j. auto. }
   constructor.
   - unfold m'. simpl. rewrite !app_length, !map_length, seq_length. lia.
   - intros c a Hm. destruct (Nat.lt_ge_cases c (length (mm m))) as [Hlt | Hge].
-    + apply Hold in Hm; [|exact Hlt]. destruct (ms_rel _ _ _ HMS c a Hm) as (v & hc & Hc & Hh & Hr).
-      exists v, hc. split; [|split].
+    + apply Hold in Hm; [|exact Hlt]. destruct (ms_rel _ _ _ HMS c a Hm) as (v & hc & Hc & Hh & Hr & Hf).
+      exists v, hc. split; [|split; [|split]].
       * simpl. rewrite nth_error_app1; [exact Hc|]. apply nth_error_Some. congruence.
       * rewrite Hpre; [exact Hh|]. apply nth_error_Some. congruence.
       * eapply cell_rel_ext; eauto.
+      * intros fd cenv E. unfold m'. simpl. apply in_or_app. left. apply Hf. exact E.
     + destruct (Hnew c a Hge Hm) as (j & -> & -> & Hj).
       destruct (nth_error fds j) as [fd|] eqn:Ef; [|apply nth_error_None in Ef; lia].
       destruct (Hslots j fd Ef) as (v & ad & addr & Hs & Hin & Hfa & HF2).
-      exists (CFun fd e'), (HFun v addr). split; [|split].
+      exists (CFun fd e'), (HFun v addr). split; [|split; [|split]].
       * simpl. rewrite nth_error_app2 by lia. rewrite <- Hlen.
         replace (length (mm m) + j - length (mm m))%nat with j by lia. rewrite nth_error_map, Ef. reflexivity.
       * exact Hs.
       * simpl. split; [exact Hfa|]. split; [exact Hnf|]. exists ad. split; [|exact HF2].
         unfold m'. simpl. apply in_or_app. right. exact Hin.
+      * intros fd0 cenv0 E. inversion E; subst fd0 cenv0. unfold m'. simpl. apply in_or_app. right.
+        rewrite Hlen. fold c0.
+        pose proof (nth_error_combine_seq (fun f => (f, e')) fds c0 j fd Ef) as Hc.
+        eapply nth_error_In; eauto.
   - intros c1 c2 a H1 H2.
     destruct (Nat.lt_ge_cases c1 (length (mm m))) as [L1 | G1];
     destruct (Nat.lt_ge_cases c2 (length (mm m))) as [L2 | G2].
@@ -330,41 +404,61 @@ Proof.
   - intros v l Hin. unfold m' in Hin. simpl in Hin. apply in_app_or in Hin. destruct Hin as [Hin | Hin].
     + rewrite Hpre; [apply (ms_vec _ _ _ HMS _ _ Hin) | eapply MS_vec_lt; eauto].
     + apply Hnv. exact Hin.
+  - intros c fd cenv Hin. unfold m' in Hin. simpl in Hin. apply in_app_or in Hin. destruct Hin as [Hin | Hin].
+    + simpl. rewrite nth_error_app1 by (eapply MS_fcl_lt; eauto). apply (ms_fcl _ _ _ HMS _ _ _ Hin).
+    + destruct (Hrec _ _ _ Hin) as (j & -> & Hj & ->). left. simpl. fold c0.
+      rewrite nth_error_app2 by (unfold c0; lia). replace (c0 + j - length (cells st))%nat with j by (unfold c0; lia).
+      rewrite nth_error_map, Hj. reflexivity.
+  - intros c fd cenv k Hin Hk. unfold m' in Hin. simpl in Hin. apply in_app_or in Hin. destruct Hin as [Hin | Hin].
+    + eapply (ms_fself _ _ _ HMS); eauto.
+    + destruct (Hrec _ _ _ Hin) as (j & -> & Hj & ->). unfold e'. apply func_env_nth; [exact Hj|].
+      intros j' g Hlt Hg E.
+      assert (H1 : nth_error (map fd_name fds) j = Some (fd_name fd)) by (rewrite nth_error_map, Hj; reflexivity).
+      assert (H2 : nth_error (map fd_name fds) j' = Some (fd_name fd)) by (rewrite nth_error_map, Hg; simpl; rewrite E; reflexivity).
+      assert (j = j'); [|lia].
+      eapply (proj1 (NoDup_nth_error (map fd_name fds))); eauto.
+      * apply nth_error_Some. congruence.
+      * congruence.
 Qed.
 
 (* one closure (a function expression): a new cell, a new function object after a new vector *)
 Lemma MS_closure : forall m st h fd (e : env) addrs addr c st',
   MS m st h -> alloc st (CFun fd e) = (c, st') ->
   fun_addr fd addr -> (forall x c, lookup x e = Some c -> is_fname FS x = false) ->
+  (forall k, nth_error AF k <> Some (KNamed, fd)) ->
   Forall2 (fun y a => exists c, lookup y e = Some c /\ mget m c = Some (MA a)) (fvs_fd TL fd) addrs ->
-  let m' := {| mm := mm m ++ [MA (S (length h))]; mv := mv m ++ [(length h, addrs)] |} in
+  let m' := {| mm := mm m ++ [MA (S (length h))]; mv := mv m ++ [(length h, addrs)]; mf := mf m ++ [(c, (fd, e))] |} in
   MS m' st' (h ++ [HVec addrs; HFun (length h) addr]) /\ mget m' c = Some (MA (S (length h))) /\ ext m m' /\
   out st' = out st.
 Proof.
-  intros m st h fd e addrs addr c st' HMS Ha Hfa Hnf HF m'.
-  set (m1 := {| mm := mm m; mv := mv m ++ [(length h, addrs)] |}).
-  assert (He1 : ext m m1) by (split; simpl; [exists []; now rewrite app_nil_r | eexists; reflexivity]).
+  intros m st h fd e addrs addr c st' HMS Ha Hfa Hnf Hnn HF m'.
+  set (m1 := {| mm := mm m; mv := mv m ++ [(length h, addrs)]; mf := mf m |}).
+  assert (He1 : ext m m1) by (split; [|split]; simpl; [exists []; now rewrite app_nil_r | eexists; reflexivity | exists []; now rewrite app_nil_r]).
   assert (HMS1 : MS m1 st (h ++ [HVec addrs])).
   { constructor.
     - apply (ms_len _ _ _ HMS).
-    - intros c0 a Hm. destruct (ms_rel _ _ _ HMS c0 a Hm) as (v & hc & Hc & Hh & Hr).
+    - intros c0 a Hm. destruct (ms_rel _ _ _ HMS c0 a Hm) as (v & hc & Hc & Hh & Hr & Hf).
       exists v, hc. split; [exact Hc|]. split; [rewrite nth_error_app1; [exact Hh | apply nth_error_Some; congruence]|].
-      eapply cell_rel_ext; eauto.
+      split; [eapply cell_rel_ext; eauto | exact Hf].
     - apply (ms_inj _ _ _ HMS).
     - apply (ms_fun _ _ _ HMS).
     - intros v l Hin. unfold m1 in Hin. simpl in Hin. apply in_app_or in Hin. destruct Hin as [Hin | [Hin | []]].
       + rewrite nth_error_app1; [apply (ms_vec _ _ _ HMS _ _ Hin) | eapply MS_vec_lt; eauto].
-      + inversion Hin; subst. rewrite nth_error_app2, Nat.sub_diag by lia. reflexivity. }
+      + inversion Hin; subst. rewrite nth_error_app2, Nat.sub_diag by lia. reflexivity.
+    - apply (ms_fcl _ _ _ HMS).
+    - apply (ms_fself _ _ _ HMS). }
   assert (Hrel : cell_rel m1 (CFun fd e) (HFun (length h) addr)).
   { simpl. split; [exact Hfa|]. split; [exact Hnf|]. exists addrs. split.
     - unfold m1. simpl. apply in_or_app. right. left. reflexivity.
     - eapply Forall2_imp; [|exact HF]. intros y a (c0 & H1 & H2). exists c0. split; [exact H1|]. exact H2. }
-  destruct (MS_alloc_gen m1 st (h ++ [HVec addrs]) (CFun fd e) (HFun (length h) addr) c st' [] HMS1 Hrel Ha) as (A & B & C).
+  assert (Hs : forall fd0 cenv k, CFun fd e = CFun fd0 cenv -> nth_error AF k = Some (KNamed, fd0) -> lookup (fd_name fd0) cenv = Some c).
+  { intros fd0 cenv k E Hk. inversion E; subst. exfalso. eapply Hnn; eauto. }
+  destruct (MS_alloc_gen m1 st (h ++ [HVec addrs]) (CFun fd e) (HFun (length h) addr) c st' [] HMS1 Hrel Ha Hs) as (A & B & _ & C).
   simpl in A, B. rewrite app_length in A, B. simpl in A, B. rewrite Nat.add_0_r in A, B.
   replace (length h + 1)%nat with (S (length h)) in A, B by lia.
   rewrite <- app_assoc in A. simpl in A.
   split; [exact A|]. split; [exact B|]. split; [|exact C].
-  unfold m'. split; simpl; eexists; reflexivity.
+  unfold m'. split; [|split]; simpl; eexists; reflexivity.
 Qed.
 
 End Rel.
@@ -486,6 +580,25 @@ Definition access (G : ginfo) (fc : fctx) (ce : cenv) (L : Z) (stk gl : list nat
 (* every name in scope: bound by the evaluator to a mapped cell whose image the access yields; no local
    name hides a top-level function; every top-level function's cell is known to hold it; the running
    function's vector gp holds gl *)
+(* the running function is a NAMED nested function f (and its name is not hidden by a slot): the evaluator's
+   environment binds f to the recorded cell of f's own closure, whose captured environment the vector gp holds *)
+Definition self_match (G : ginfo) (fc : fctx) (gp : nat) (gl : list nat) (m : morph) (e : env) (ce : cenv) : Prop :=
+  forall f, fc_self fc = Some f -> clookup f ce = None ->
+    exists cf kself sfd scenv,
+      lookup f e = Some cf /\ In (cf, (sfd, scenv)) (mf m) /\ fd_name sfd = f /\
+      nth_error (g_all G) kself = Some (KNamed, sfd) /\ In (gp, gl) (mv m) /\
+      Forall2 (fun y a => exists c, lookup y scenv = Some c /\ mget m c = Some (MA a)) (fvs_fd (g_tl G) sfd) gl /\
+      (forall x c, lookup x scenv = Some c -> is_fname (g_sigs G) x = false).
+
+Lemma self_match_ext : forall G fc gp gl m m' e ce, self_match G fc gp gl m e ce -> ext m m' ->
+  self_match G fc gp gl m' e ce.
+Proof.
+  intros G fc gp gl m m' e ce H He f Hf Hc. destruct (H f Hf Hc) as (cf & k & sfd & scenv & A & B & C & D & E & F & I).
+  exists cf, k, sfd, scenv. split; [exact A|]. split; [eapply ext_fcl; eauto|]. split; [exact C|]. split; [exact D|].
+  split; [eapply ext_vec; eauto|]. split; [|exact I].
+  eapply Forall2_imp; [|exact F]. intros y a (c & Y1 & Y2). exists c. split; [exact Y1 | eapply ext_nth; eauto].
+Qed.
+
 Definition env_match (G : ginfo) (fc : fctx) (gp : nat) (gl : list nat) (m : morph) (e : env) (ce : cenv)
   (sc : list ident) (L : Z) (stk : list nat) : Prop :=
   (forall x, mem_id x sc = true ->
@@ -494,17 +607,20 @@ Definition env_match (G : ginfo) (fc : fctx) (gp : nat) (gl : list nat) (m : mor
   (forall f fd, find_func f (g_funcs G) = Some fd ->
     exists cf, lookup f (g_genv G) = Some cf /\ mget m cf = Some (MF fd)) /\
   (gl = [] \/ In (gp, gl) (mv m)) /\
-  (forall x i, clookup x ce = Some i -> is_fname (g_sigs G) x = false).
+  ((forall x i, clookup x ce = Some i -> is_fname (g_sigs G) x = false /\ mem_id x sc = true) /\
+   self_match G fc gp gl m e ce /\
+   (forall f, fc_self fc = Some f -> mem_id f sc = false)).
 
 Lemma env_match_ext : forall G fc gp gl m m' e ce sc L stk, env_match G fc gp gl m e ce sc L stk -> ext m m' ->
   env_match G fc gp gl m' e ce sc L stk.
 Proof.
-  intros G fc gp gl m m' e ce sc L stk (H & Hn & Hf & Hv & Hc) He. split; [|split; [|split; [|split]]]; auto.
+  intros G fc gp gl m m' e ce sc L stk (H & Hn & Hf & Hv & Hc & Hs & Hsc) He. split; [|split; [|split; [|split; [|split; [|split]]]]]; auto.
   - intros x Hx. destruct (H x Hx) as (c & a & H3 & H4 & H5).
     exists c, a. repeat split; auto. eapply ext_nth; eauto.
   - intros f fd Hfd. destruct (Hf f fd Hfd) as (cf & H1 & H2). exists cf. split; auto.
     eapply ext_nth; eauto.
   - destruct Hv as [Hv | Hv]; [left; exact Hv | right; eapply ext_vec; eauto].
+  - eapply self_match_ext; eauto.
 Qed.
 
 Lemma access_push : forall G fc ce L stk gl x a a0, access G fc ce L stk gl x a ->
@@ -524,12 +640,12 @@ Proof.
 Qed.
 
 Lemma env_match_bind : forall G fc gp gl m e ce sc L stk x c a, env_match G fc gp gl m e ce sc L stk ->
-  mget m c = Some (MA a) -> is_fname (g_sigs G) x = false ->
+  mget m c = Some (MA a) -> is_fname (g_sigs G) x = false -> self_is (fc_self fc) x = false ->
   env_match G fc gp gl m ((x, c) :: e) ((x, L + 1) :: ce) (x :: sc) (L + 1) (a :: stk).
 Proof.
-  intros G fc gp gl m e ce sc L stk x c a H Hm Hx.
+  intros G fc gp gl m e ce sc L stk x c a H Hm Hx Hsx.
   pose proof (env_match_push _ _ _ _ _ _ _ _ _ _ a H) as (Hp & _ & _ & _ & _).
-  destruct H as (H & Hn & Hf & Hv & Hc). split; [|split; [|split; [|split]]]; auto.
+  destruct H as (H & Hn & Hf & Hv & Hc & Hs & Hsc). split; [|split; [|split; [|split; [|split; [|split]]]]]; auto.
   - intros y Hy. simpl in Hy. simpl. destruct (N.eqb y x) eqn:Exy.
     + exists c, a. repeat split; auto. unfold access. simpl. rewrite Exy. split; [lia|].
       replace (Z.to_nat (L + 1 - (L + 1))) with 0%nat by lia. reflexivity.
@@ -538,9 +654,13 @@ Proof.
   - intros y c' Hy. simpl in Hy. destruct (N.eqb y x) eqn:Exy.
     + apply N.eqb_eq in Exy. subst y. exact Hx.
     + eapply Hn; eauto.
-  - intros y i Hy. simpl in Hy. destruct (N.eqb y x) eqn:Exy.
-    + apply N.eqb_eq in Exy. subst y. exact Hx.
-    + eapply Hc; eauto.
+  - intros y i Hy. simpl in Hy. simpl. destruct (N.eqb y x) eqn:Exy.
+    + apply N.eqb_eq in Exy. subst y. split; [exact Hx | reflexivity].
+    + destruct (Hc y i Hy) as [A B]. split; [exact A | exact B].
+  - intros f Hf0 Hcl. simpl in Hcl. destruct (N.eqb f x) eqn:Efx; [discriminate|].
+    destruct (Hs f Hf0 Hcl) as (cf & k & sfd & scenv & A & B). exists cf, k, sfd, scenv. split; [|exact B].
+    simpl. rewrite Efx. exact A.
+  - intros f Hf0. simpl. unfold self_is in Hsx. rewrite Hf0 in Hsx. rewrite N.eqb_sym in Hsx. rewrite Hsx. simpl. apply Hsc. exact Hf0.
 Qed.
 
 (* ---- runs of sibling functions: the two environments ------------------------------------------------ *)
@@ -573,6 +693,14 @@ Proof.
   induction fds as [|fd t IH]; intros i ce x j H; simpl in H; [right; exact H|].
   destruct (IH _ _ _ _ H) as [(f & Hf & E) | H']; [left; exists f; simpl; auto|].
   simpl in H'. destruct (N.eqb_spec x (fd_name fd)) as [->|]; [left; exists fd; simpl; auto | right; exact H'].
+Qed.
+
+Lemma clookup_func_cenv_none : forall fds i ce x, clookup x (func_cenv fds i ce) = None ->
+  (forall f, In f fds -> fd_name f <> x) /\ clookup x ce = None.
+Proof.
+  induction fds as [|fd t IH]; intros i ce x H; simpl in H; [split; [intros f [] | exact H]|].
+  destruct (IH _ _ _ H) as [H1 H2]. simpl in H2. destruct (N.eqb_spec x (fd_name fd)) as [->|Hne]; [discriminate|].
+  split; [|exact H2]. intros f [<- | Hf]; [congruence | apply H1; exact Hf].
 Qed.
 
 Lemma lookup_func_env_cases : forall fds c e x c', lookup x (func_env fds c e) = Some c' ->
@@ -608,23 +736,24 @@ Proof. exact nth_error_rev_seq. Qed.
 
 (* the evaluator's recursive environment and the machine's slots agree, at the level after ALLOC, before any
    closure of the run is made (env_match does not look at the heap), whatever vectors will be recorded *)
-Lemma env_match_run : forall G fc gp gl m e ce sc L stk fds (st : state) (h : list hcell) nv,
+Lemma env_match_run : forall G fc gp gl m e ce sc L stk fds (st : state) (h : list hcell) nv nf,
   env_match G fc gp gl m e ce sc L stk ->
   NoDup (map fd_name fds) ->
-  (forall f, In f fds -> mem_id (fd_name f) sc = false /\ is_fname (g_sigs G) (fd_name f) = false) ->
+  (forall f, In f fds -> mem_id (fd_name f) sc = false /\ is_fname (g_sigs G) (fd_name f) = false /\
+                         self_is (fc_self fc) (fd_name f) = false) ->
   length (mm m) = length (cells st) ->
   let k := length fds in
-  env_match G fc gp gl {| mm := mm m ++ map MA (seq (length h) k); mv := mv m ++ nv |}
+  env_match G fc gp gl {| mm := mm m ++ map MA (seq (length h) k); mv := mv m ++ nv; mf := mf m ++ nf |}
             (func_env fds (length (cells st)) e) (func_cenv fds (L + 1) ce)
             (map fd_name fds ++ sc) (L + Z.of_nat k) (rev (seq (length h) k) ++ stk).
 Proof.
-  intros G fc gp gl m e ce sc L stk fds st h nv Hem Hnd Hnew Hlen k.
-  set (m' := {| mm := mm m ++ map MA (seq (length h) k); mv := mv m ++ nv |}).
-  assert (He : ext m m') by (split; simpl; eexists; reflexivity).
-  destruct Hem as (H1 & H2 & H3 & H4 & H5).
+  intros G fc gp gl m e ce sc L stk fds st h nv nf Hem Hnd Hnew Hlen k.
+  set (m' := {| mm := mm m ++ map MA (seq (length h) k); mv := mv m ++ nv; mf := mf m ++ nf |}).
+  assert (He : ext m m') by (split; [|split]; simpl; eexists; reflexivity).
+  destruct Hem as (H1 & H2 & H3 & H4 & H5 & H6 & H7).
   assert (Hne : forall y, mem_id y sc = true -> forall f, In f fds -> fd_name f <> y).
   { intros y Hy f Hf E. destruct (Hnew f Hf) as [Hx _]. rewrite E in Hx. congruence. }
-  split; [|split; [|split; [|split]]].
+  split; [|split; [|split; [|split; [|split; [|split]]]]].
   - intros y Hy. rewrite mem_id_app' in Hy. apply orb_true_iff in Hy.
     destruct (mem_id y (map fd_name fds)) eqn:Erun.
     + (* a function of the run *)
@@ -655,13 +784,20 @@ Proof.
         rewrite rev_length, seq_length. replace (k + Z.to_nat (L - i) - k)%nat with (Z.to_nat (L - i)) by lia.
         exact Hn.
   - intros x c Hl. destruct (lookup_func_env_cases _ _ _ _ _ Hl) as [(f & Hf & <-) | Hl'].
-    + apply (Hnew f Hf).
+    + apply (proj1 (proj2 (Hnew f Hf))).
     + eapply H2; eauto.
   - intros f fd Hfd. destruct (H3 f fd Hfd) as (cf & A & B). exists cf. split; [exact A | eapply ext_nth; eauto].
   - destruct H4 as [H4 | H4]; [left; exact H4 | right; eapply ext_vec; eauto].
-  - intros x i Hc. destruct (clookup_func_cenv_cases _ _ _ _ _ Hc) as [(f & Hf & <-) | Hc'].
-    + apply (Hnew f Hf).
-    + eapply H5; eauto.
+  - intros x i Hc. rewrite mem_id_app'. destruct (clookup_func_cenv_cases _ _ _ _ _ Hc) as [(f & Hf & <-) | Hc'].
+    + split; [apply (proj1 (proj2 (Hnew f Hf)))|]. rewrite (In_mem_id_true _ _ (in_map fd_name _ _ Hf)). reflexivity.
+    + destruct (H5 x i Hc') as [A B]. split; [exact A|]. rewrite B. apply orb_true_r.
+  - intros f Hf0 Hcl. destruct (clookup_func_cenv_none _ _ _ _ Hcl) as [Hnf Hcl0].
+    destruct (self_match_ext _ _ _ _ _ _ _ _ H6 He f Hf0 Hcl0) as (cf & k0 & sfd & scenv & A & B).
+    exists cf, k0, sfd, scenv. split; [|exact B]. rewrite func_env_other by exact Hnf. exact A.
+  - intros f Hf0. rewrite mem_id_app'. rewrite (H7 f Hf0), orb_false_r.
+    destruct (mem_id f (map fd_name fds)) eqn:Em; [|reflexivity]. exfalso.
+    apply mem_id_true_In in Em. apply in_map_iff in Em. destruct Em as (g0 & E & Hg0).
+    destruct (Hnew g0 Hg0) as (_ & _ & Hx). unfold self_is in Hx. rewrite Hf0, E, N.eqb_refl in Hx. discriminate.
 Qed.
 
 (* ---- small arithmetic facts ---------------------------------------------------------------- *)
